@@ -1,0 +1,16 @@
+//go:build verif
+
+package parser
+
+// specLexWF: the scanner's cursor invariant (property C01): the current character starts at
+// chrOffset, the next one at offset, both inside the source text, and chr is -1 exactly at EOF.
+func specLexWF(p *_parser) bool {
+	if p == nil || p.length != len(p.str) || p.chrOffset < 0 || p.chrOffset > p.offset || p.offset > p.length {
+		return false
+	}
+	if p.chr == -1 {
+		return true
+	}
+	// a real character occupies at least one byte
+	return p.chrOffset < p.offset
+}
